@@ -1,10 +1,13 @@
 import Engeom.Driver.C18
 import Engeom.Driver.C16
+import Engeom.Driver.C17
 
 def dispatch (op : String) (args : List String) : Option String :=
   match (op.splitOn ".").head! with
   | "angle" | "interval" => DrvC18.handle op args
-  | "dev" | "tolmap" | "cloud" | "domain" => DrvC16.handle op args
+  | "dev" | "tolmap" | "cloud" => DrvC16.handle op args
+  | "domain" => if op = "domain.index_of" then DrvC16.handle op args else DrvC17.handle op args
+  | "series" => DrvC17.handle op args
   | _ => none
 
 partial def loop (h : IO.FS.Stream) (out : IO.FS.Stream) : IO Unit := do
